@@ -33,9 +33,26 @@ Oracle (what C26 states):
 """
 import asyncio
 
-from vt import loader, sched
+import sys
+import types
 
-loader.install()
+from vt import sched
+
+
+def _stub_missing(name, **attrs):
+    """prometheus_client / prometheus_async are not installed in the sandbox; the module under test only needs the
+    names to exist at import time (every use is replaced below).  Real packages, when present, are left alone."""
+    try:
+        __import__(name)
+    except ImportError:
+        m = types.ModuleType(name)
+        m.__dict__.update(attrs)
+        sys.modules[name] = m
+
+
+_stub_missing('prometheus_client', Counter=lambda *a, **k: None, Summary=lambda *a, **k: None)
+_stub_missing('prometheus_async')
+_stub_missing('prometheus_async.aio', time=None)
 SRC = 'gear/gear/time_limited_max_size_cache.py'
 cache_mod = sched.load_file('c26_cache_real', SRC)
 NK = 2
@@ -317,6 +334,9 @@ def _mk(nt, k):
     return check, reach
 
 
+check_2_3, reach_2_3 = _mk(2, 3)
+check_2_4, reach_2_4 = _mk(2, 4)
+check_2_5, reach_2_5 = _mk(2, 5)
 check_3_3, reach_3_3 = _mk(3, 3)
 check_3_4, reach_3_4 = _mk(3, 4)
 check_3_5, reach_3_5 = _mk(3, 5)
@@ -370,3 +390,6 @@ def replay(args, meta):
                 acts, keys, dts, drains, why, trace, changed = cut(acts), cut(keys), cut(dts), cut(drains), why2, tr2, True
                 break
     return False, classify(trace, why), (f'{why}; minimal schedule (action, drain, clock, lookup outcomes, cached keys) = {trace}')
+
+
+sched.freeze()
